@@ -227,6 +227,8 @@ impl<R: Rng + Send> Multiplexor<R> {
         // and other frame types are to be immediately processed without any backpressure,
         // so they are ok to be unbounded channels.
         let (tx_msg_tx, tx_msg_rx) = mpsc::unbounded_channel();
+        // Keepalive `Ping`s overtake the data queued above
+        let (ping_tx, ping_rx) = mpsc::unbounded_channel();
         // This one cannot be bounded because it needs to be used in Drop
         let (dropped_flows_tx, dropped_flows_rx) = mpsc::unbounded_channel();
 
@@ -261,6 +263,8 @@ impl<R: Rng + Send> Multiplexor<R> {
                 rwnd: options.rwnd,
                 datagram_tx,
                 bnd_request_tx,
+                ping_tx,
+                ping_rx: Mutex::new(ping_rx),
                 keepalive_interval: options.keepalive_interval,
                 // Whatever the order in which the two options were set
                 keepalive_timeout: if options.keepalive_interval == timing::OptionalDuration::NONE {
